@@ -1,4 +1,707 @@
-//! C04 — stub, replaced when the property's harness lands.
-use crate::util::{Em, Rng};
+//! C04 — invalid hyperparameters are rejected with an error before any training.
+//!
+//! For every parameter builder of the workspace the boundary grid of its guarded parameters is run
+//! through the REAL code: `check_ref()`, `check()`, and `fit` / `fit_with` / `transform` on the unchecked
+//! builder with a tiny valid dataset (under `catch_unwind`).  The response line
+//! `ref=<ok|err:Tag> val=<…> fit=<as-checked|err:Tag> inrange=<0|1> finite=<0|1>` is compared with the Lean
+//! model (the guard translated from the Rust source by tools/params2lean.py + the hand-transcribed
+//! documented ranges), so the translator is differential-tested on every run.
+//!
+//! Oracle (the statement of C04, evaluated on the implementation's own outputs):
+//!   ok_iff_in_range     finite point: check passes  <=>  every value in its documented range
+//!                       (`in_range` below is an independent transcription of the documentation)
+//!   check_eq_check_ref  `check()` and `check_ref()` give the same verdict and error
+//!   params_unchanged    the checked parameters equal the builder's values; the builder is not altered
+//!   fit_unchecked       on an invalid point the blanket impl returns exactly the checking error
+//!                       (converted with `From`), it neither panics nor trains
+//!   valid_as_checked    on a valid point the unchecked builder behaves exactly like its checked form
+use crate::util::{hex64, Ctx, Em, Rng};
+use linfa::composing::platt_scaling::{Platt, PlattError};
+use linfa::dataset::{DatasetBase, Pr};
+use linfa::traits::{Fit, FitWith, Predict, PredictInplace, Transformer};
+use linfa::ParamGuard;
+use ndarray::{array, Array1, Array2};
+use rand_xoshiro::rand_core::SeedableRng;
+use rand_xoshiro::Xoshiro256Plus;
+use std::fmt::Debug;
+use std::panic::{catch_unwind, AssertUnwindSafe};
 
-pub fn run(_em: &mut Em, _rng: &mut Rng) {}
+const EPS: f64 = f64::EPSILON;
+
+thread_local! {
+    /// set per case: are the float parameters of moderate size, so that training terminates quickly?
+    /// (valid but extreme values such as alpha = f64::MAX or tolerance = 5e-324 make solvers crawl; the
+    /// comparison "valid builder = checked form" is then not exercised and counted as `fit_not_exercised`)
+    static MODERATE: std::cell::Cell<bool> = std::cell::Cell::new(true);
+    static NOT_EXERCISED: std::cell::Cell<u64> = std::cell::Cell::new(0);
+}
+fn set_moderate(vs: &[f64]) {
+    MODERATE.with(|c| c.set(vs.iter().all(|x| !x.is_finite() || (x.abs() <= 2.0 && (*x == 0.0 || x.abs() >= 1e-9)))));
+}
+
+fn dbg<T: Debug>(x: &T) -> String {
+    format!("{:?}", x)
+}
+
+/// error tag shared with the translator: the variant name; a string payload contributes its first 24
+/// characters (non-alphanumerics -> `_`); `Platt(inner)` (nested guard) contributes `Platt.<inner tag>`
+fn tag_of(d: &str) -> String {
+    let ident: String = d.chars().take_while(|c| c.is_ascii_alphanumeric() || *c == '_').collect();
+    let rest = &d[ident.len()..];
+    if let Some(r) = rest.strip_prefix("(\"") {
+        let text: String = r.chars().take_while(|c| *c != '"').collect();
+        let head: String = text.chars().take(24).map(|c| if c.is_ascii_alphanumeric() { c } else { '_' }).collect();
+        return format!("{}:{}", ident, head);
+    }
+    if ident == "Platt" && rest.starts_with('(') {
+        return format!("Platt.{}", tag_of(&rest[1..]));
+    }
+    ident
+}
+
+/// Runs one parameter point through the real code. `viol` = first documented bound the point violates
+/// (None: in range), from the harness's own transcription of the documentation.
+fn probe<P, FU, FC>(
+    ctx: &mut Ctx,
+    b: &str,
+    mk: impl Fn() -> P,
+    viol: Option<String>,
+    finite: bool,
+    show_u: impl Fn(&P) -> String,
+    show_c: impl Fn(&P::Checked) -> String,
+    conv: impl Fn(P::Error) -> String,
+    fit_u: FU,
+    fit_c: FC,
+) -> String
+where
+    P: ParamGuard,
+    P::Error: Debug,
+    FU: Fn(&P) -> Result<String, String>,
+    FC: Fn(&P::Checked) -> Result<String, String>,
+{
+    let p = mk();
+    let orig = show_u(&p);
+    if std::env::var("C04_TRACE").is_ok() {
+        eprintln!("{} {}", b, orig);
+    }
+    // check_ref
+    let r1: Result<String, (String, String)> = match p.check_ref() {
+        Ok(c) => Ok(show_c(c)),
+        Err(e) => {
+            let t = tag_of(&dbg(&e));
+            Err((t, conv(e)))
+        }
+    };
+    let after = show_u(&p);
+    ctx.require(after == orig, "params_unchanged", &format!("{}:check_ref", b), || format!("check_ref altered the builder: {} -> {}", orig, after));
+    // check (by value)
+    let r2: Result<String, String> = match mk().check() {
+        Ok(c) => Ok(show_c(&c)),
+        Err(e) => Err(tag_of(&dbg(&e))),
+    };
+    let s_ref = match &r1 {
+        Ok(_) => "ok".to_string(),
+        Err((t, _)) => format!("err:{}", t),
+    };
+    let s_val = match (&r1, &r2) {
+        (Ok(a), Ok(c)) => {
+            let same = a == c && orig.contains(c.as_str());
+            ctx.require(same, "params_unchanged", &format!("{}:check", b), || format!("checked parameters differ from the builder's: builder {} / check_ref {} / check {}", orig, a, c));
+            if same { "ok".to_string() } else { "ok-changed".to_string() }
+        }
+        (_, Ok(_)) => "ok".to_string(),
+        (_, Err(t)) => format!("err:{}", t),
+    };
+    ctx.require(s_ref == s_val || s_val == "ok-changed", "check_eq_check_ref", b, || format!("check_ref -> {} but check -> {}", s_ref, s_val));
+    // documented range
+    if finite {
+        match (&r1, &viol) {
+            (Ok(_), Some(v)) => ctx.fail("ok_iff_in_range", &format!("{}:accepted:{}", b, v), format!("finite parameters outside the documented range ({}) pass checking: {}", v, orig)),
+            (Err((t, _)), None) => ctx.fail("ok_iff_in_range", &format!("{}:rejected:{}", b, t), format!("finite parameters inside every documented range are rejected with {}: {}", t, orig)),
+            _ => {}
+        }
+    }
+    // fit / fit_with / transform on the unchecked builder
+    let fu = if r1.is_ok() && (!finite || !MODERATE.with(|c| c.get())) { Ok(Ok(String::new())) } else { catch_unwind(AssertUnwindSafe(|| fit_u(&p))) };
+    let s_fit = match &r1 {
+        Err((t, want)) => match fu {
+            Ok(Err(e)) if &e == want => format!("err:{}", t),
+            Ok(Err(e)) => {
+                ctx.fail("fit_unchecked", &format!("{}:other-error", b), format!("fit on the unchecked builder returned {} instead of the checking error {}", e, want));
+                "err-other".to_string()
+            }
+            Ok(Ok(m)) => {
+                ctx.fail("fit_unchecked", &format!("{}:trained", b), format!("fit on the unchecked invalid builder trained a model ({}) instead of returning {}", m.chars().take(80).collect::<String>(), want));
+                "trained".to_string()
+            }
+            Err(_) => {
+                ctx.fail("fit_unchecked", &format!("{}:panic", b), format!("fit on the unchecked invalid builder panicked instead of returning {}", want));
+                "panic".to_string()
+            }
+        },
+        // accepted but non-finite values (NaN / inf slip through several guards) are outside the property;
+        // training with them is not exercised
+        Ok(_) if !finite => "skipped".to_string(),
+        Ok(_) if !MODERATE.with(|c| c.get()) => {
+            NOT_EXERCISED.with(|c| c.set(c.get() + 1));
+            "as-checked".to_string()
+        }
+        Ok(_) => {
+            let fc = catch_unwind(AssertUnwindSafe(|| fit_c(p.check_ref().ok().unwrap())));
+            let same = match (&fu, &fc) {
+                (Ok(a), Ok(c)) => a == c,
+                (Err(_), Err(_)) => true,
+                _ => false,
+            };
+            ctx.require(same, "valid_as_checked", b, || format!("valid builder and its checked form behave differently: {:?} vs {:?}", fu.as_ref().ok(), fc.as_ref().ok()));
+            if same { "as-checked".to_string() } else { "differs".to_string() }
+        }
+    };
+    format!("ref={} val={} fit={} inrange={} finite={}", s_ref, s_val, s_fit, viol.is_none() as u8, finite as u8)
+}
+
+// ------------------------------------------------------------------------------------------ grids
+
+fn fgrid(thorough: bool) -> Vec<f64> {
+    let mut v = vec![-1.0, -1e-9, 0.0, EPS / 2.0, EPS, 1e-4, 0.5, 1.0, 1.0 + EPS, 2.0, f64::NAN, f64::INFINITY, f64::NEG_INFINITY];
+    if thorough {
+        v.extend([-1e6, -EPS, 5e-324, 1e-9, 1.0 - EPS / 2.0, 1.5, 1e6, f64::MAX, f64::MIN]);
+    }
+    v
+}
+/// values exactly representable in f32 (count vectoriser frequencies)
+fn fgrid32(thorough: bool) -> Vec<f64> {
+    let mut v: Vec<f32> = vec![-1.0, -1e-9, 0.0, 1e-9, 0.25, 0.5, 1.0, 1.0 + f32::EPSILON, 1.5, f32::NAN, f32::INFINITY, f32::NEG_INFINITY];
+    if thorough {
+        v.extend([-f32::EPSILON, f32::MIN_POSITIVE, 1.0 - f32::EPSILON / 2.0, 2.0, 1e6, f32::MAX]);
+    }
+    v.into_iter().map(|x| x as f64).collect()
+}
+fn cgrid(thorough: bool) -> Vec<usize> {
+    if thorough { vec![0, 1, 2, 3, 5, 40] } else { vec![0, 1, 2, 5] }
+}
+
+/// index tuples over axes of the given sizes: the full product when it fits under `cap`, otherwise all
+/// one-at-a-time deviations from `base` plus random tuples up to `cap` (deduplicated, deterministic)
+fn points(sizes: &[usize], base: &[usize], cap: usize, rng: &mut Rng) -> Vec<Vec<usize>> {
+    let total: usize = sizes.iter().product();
+    let mut out: Vec<Vec<usize>> = vec![];
+    if total <= cap {
+        let mut idx = vec![0; sizes.len()];
+        loop {
+            out.push(idx.clone());
+            let mut k = sizes.len();
+            loop {
+                if k == 0 {
+                    return out;
+                }
+                k -= 1;
+                idx[k] += 1;
+                if idx[k] < sizes[k] {
+                    break;
+                }
+                idx[k] = 0;
+            }
+        }
+    }
+    let mut seen = std::collections::HashSet::new();
+    for a in 0..sizes.len() {
+        for v in 0..sizes[a] {
+            let mut t = base.to_vec();
+            t[a] = v;
+            if seen.insert(t.clone()) {
+                out.push(t);
+            }
+        }
+    }
+    let mut guard = 0;
+    while out.len() < cap && guard < cap * 20 {
+        guard += 1;
+        let t: Vec<usize> = sizes.iter().map(|s| rng.below(*s)).collect();
+        if seen.insert(t.clone()) {
+            out.push(t);
+        }
+    }
+    out
+}
+
+fn h(x: f64) -> String {
+    hex64(x)
+}
+// documented ranges are ranges of real numbers: an infinite value is in none of them
+fn nonneg(x: f64) -> bool {
+    x.is_finite() && x >= 0.0
+}
+fn pos(x: f64) -> bool {
+    x.is_finite() && x > 0.0
+}
+fn unit(x: f64) -> bool {
+    (0.0..=1.0).contains(&x)
+}
+/// cluster ids up to renaming (ids follow hash-map order in linfa-hierarchical): relabel by first occurrence
+fn canon(ids: &Vec<usize>) -> String {
+    let mut map = std::collections::BTreeMap::new();
+    let out: Vec<usize> = ids.iter().map(|i| { let n = map.len(); *map.entry(*i).or_insert(n) }).collect();
+    dbg(&out)
+}
+/// first violated documented bound
+fn first(vs: &[(bool, &str)]) -> Option<String> {
+    vs.iter().find(|(ok, _)| !ok).map(|(_, n)| n.to_string())
+}
+
+// ---------------------------------------------------------------------------------------- datasets
+
+fn xs() -> Array2<f64> {
+    array![[0.0, 0.1], [0.2, 0.0], [0.1, 0.3], [0.3, 0.2], [0.15, 0.15], [0.05, 0.25], [4.0, 4.1], [4.2, 4.0], [4.1, 4.3], [4.3, 4.2], [4.15, 4.15], [4.05, 4.25]]
+}
+fn ys_f() -> Array1<f64> {
+    array![1.0, 1.5, 1.2, 1.8, 1.4, 1.1, 5.0, 5.5, 5.2, 5.8, 5.4, 5.1]
+}
+fn ys_b() -> Array1<bool> {
+    array![false, false, true, false, false, false, true, true, true, false, true, true]
+}
+fn ys_u() -> Array1<usize> {
+    // 7 : 5 — no modal-class tie at the root (tie-breaking follows hash order, see C20)
+    array![0, 0, 1, 0, 0, 0, 1, 1, 1, 0, 1, 0]
+}
+fn ys_2() -> Array2<f64> {
+    let y = ys_f();
+    let mut m = Array2::zeros((12, 2));
+    for i in 0..12 {
+        m[[i, 0]] = y[i];
+        m[[i, 1]] = 2.0 - y[i] * 0.5 + (i % 3) as f64 * 0.1;
+    }
+    m
+}
+fn rng7() -> Xoshiro256Plus {
+    Xoshiro256Plus::seed_from_u64(7)
+}
+fn kernel() -> linfa_kernel::Kernel<f64> {
+    linfa_kernel::Kernel::params().method(linfa_kernel::KernelMethod::Gaussian(2.0)).transform(xs().view())
+}
+
+/// stand-in for a fitted model that Platt scaling calibrates
+#[derive(Clone, Debug, PartialEq)]
+struct FirstColumn;
+impl PredictInplace<Array2<f64>, Array1<f64>> for FirstColumn {
+    fn predict_inplace(&self, x: &Array2<f64>, y: &mut Array1<f64>) {
+        for (i, r) in x.rows().into_iter().enumerate() {
+            y[i] = r[0] - 2.0;
+        }
+    }
+    fn default_target(&self, x: &Array2<f64>) -> Array1<f64> {
+        Array1::zeros(x.nrows())
+    }
+}
+
+// ---------------------------------------------------------------------------------------- builders
+
+macro_rules! res {
+    ($e:expr) => {
+        $e.map(|m| dbg(&m)).map_err(|e| dbg(&e))
+    };
+}
+
+pub fn run(em: &mut Em, rng: &mut Rng) {
+    let th = em.thorough();
+    let cap = if th { 4000 } else { 1000 };
+    let fg = fgrid(th);
+    let cg = cgrid(th);
+    let nf = fg.len();
+    let nc = cg.len();
+    // index of a valid base value in each grid
+    let fb = fg.iter().position(|x| *x == 0.5).unwrap();
+    let cb = cg.iter().position(|x| *x == 2).unwrap();
+
+    // ---- K-means: n_clusters, n_runs, tolerance, max_n_iterations
+    for t in points(&[nc, nc, nf, nc], &[cb, cb, fb, cb], cap, rng) {
+        let (k, r, tol, mi) = (cg[t[0]], cg[t[1]], fg[t[2]], cg[t[3]]);
+        em.count("builder:KMeans");
+        em.case(format!("grid b=KMeans n_clusters={} n_runs={} tolerance={} max_n_iterations={}", k, r, h(tol), mi), |ctx| {
+            set_moderate(&[tol]);
+            let p = linfa_clustering::KMeans::params_with(k, rng7(), linfa_nn::distance::L2Dist).n_runs(r).tolerance(tol).max_n_iterations(mi as u64);
+            let viol = first(&[(k >= 1, "n_clusters>=1"), (r >= 1, "n_runs>=1"), (pos(tol), "tolerance>0"), (mi >= 1, "max_n_iterations>=1")]);
+            let ds = DatasetBase::from(xs());
+            probe(ctx, "KMeans", || p.clone(), viol, tol.is_finite(), |p| dbg(p), |c| dbg(c), |e| dbg(&linfa_clustering::KMeansError::from(e)), |p| res!(p.fit(&ds)), |c| res!(c.fit(&ds)))
+        });
+    }
+    // ---- DBSCAN: min_points, tolerance
+    for t in points(&[nc, nf], &[cb, fb], cap, rng) {
+        let (mp, tol) = (cg[t[0]], fg[t[1]]);
+        em.count("builder:Dbscan");
+        em.case(format!("grid b=Dbscan min_points={} tolerance={}", mp, h(tol)), |ctx| {
+            set_moderate(&[tol]);
+            let p = linfa_clustering::Dbscan::params(mp).tolerance(tol);
+            let viol = first(&[(mp >= 2, "min_points>=2"), (pos(tol), "tolerance>0")]);
+            let x = xs();
+            probe(ctx, "Dbscan", || p.clone(), viol, tol.is_finite(), |p| dbg(p), |c| dbg(c), |e| dbg(&e), |p| res!(p.transform(&x)), |c| Ok(dbg(&c.transform(&x))))
+        });
+    }
+    // (approximate DBSCAN: `appx_dbscan/` is not compiled in this tree — `AppxDbscan` is an alias of `Dbscan` —
+    //  its guard is translated and proved about, but there is no code to run)
+    // ---- OPTICS: tolerance, min_points
+    for t in points(&[nf, nc], &[fb, cb], cap, rng) {
+        let (tol, mp) = (fg[t[0]], cg[t[1]]);
+        em.count("builder:Optics");
+        em.case(format!("grid b=Optics tolerance={} min_points={}", h(tol), mp), |ctx| {
+            set_moderate(&[tol]);
+            let p = linfa_clustering::Optics::params(mp).tolerance(tol);
+            let viol = first(&[(pos(tol), "tolerance>0"), (mp >= 2, "min_points>=2")]);
+            let x = xs();
+            probe(ctx, "Optics", || p.clone(), viol, tol.is_finite(), |p| dbg(p), |c| dbg(c), |e| dbg(&e), |p| res!(p.transform(x.view())), |c| Ok(dbg(&c.transform(x.view()))))
+        });
+    }
+    // ---- Gaussian mixture: n_clusters, tolerance, reg_covar, n_runs, max_n_iter
+    for t in points(&[nc, nf, nf, nc, nc], &[cb, fb, fb, cb, cb], cap, rng) {
+        let (k, tol, reg, r, mi) = (cg[t[0]], fg[t[1]], fg[t[2]], cg[t[3]], cg[t[4]]);
+        em.count("builder:Gmm");
+        em.case(format!("grid b=Gmm n_clusters={} tolerance={} reg_covar={} n_runs={} max_n_iter={}", k, h(tol), h(reg), r, mi), |ctx| {
+            set_moderate(&[tol, reg]);
+            let p = linfa_clustering::GaussianMixtureModel::params_with_rng(k, rng7()).tolerance(tol).reg_covariance(reg).n_runs(r as u64).max_n_iterations(mi as u64);
+            let viol = first(&[(k >= 1, "n_clusters>=1"), (pos(tol), "tolerance>0"), (nonneg(reg), "reg_covar>=0"), (r >= 1, "n_runs>=1"), (mi >= 1, "max_n_iter>=1")]);
+            let ds = DatasetBase::from(xs());
+            probe(ctx, "Gmm", || p.clone(), viol, tol.is_finite() && reg.is_finite(), |p| dbg(p), |c| dbg(c), |e| dbg(&e), |p| res!(p.fit(&ds)), |c| res!(c.fit(&ds)))
+        });
+    }
+    // ---- elastic net (single and multi task share one guard): penalty, l1_ratio, tolerance
+    for t in points(&[nf, nf, nf], &[fb, fb, fb], cap, rng) {
+        let (pen, l1, tol) = (fg[t[0]], fg[t[1]], fg[t[2]]);
+        let viol = first(&[(nonneg(pen), "penalty>=0"), (unit(l1), "0<=l1_ratio<=1"), (nonneg(tol), "tolerance>=0")]);
+        let finite = pen.is_finite() && l1.is_finite() && tol.is_finite();
+        em.count("builder:ElasticNet");
+        em.case(format!("grid b=ElasticNet task=single penalty={} l1_ratio={} tolerance={}", h(pen), h(l1), h(tol)), |ctx| {
+            set_moderate(&[pen, l1, tol]);
+            let p = linfa_elasticnet::ElasticNet::<f64>::params().penalty(pen).l1_ratio(l1).tolerance(tol).max_iterations(50);
+            let ds = DatasetBase::new(xs(), ys_f());
+            probe(ctx, "ElasticNet", || p.clone(), viol.clone(), finite, |p| dbg(p), |c| dbg(c), |e| dbg(&e), |p| res!(p.fit(&ds)), |c| res!(c.fit(&ds)))
+        });
+        em.case(format!("grid b=ElasticNet task=multi penalty={} l1_ratio={} tolerance={}", h(pen), h(l1), h(tol)), |ctx| {
+            set_moderate(&[pen, l1, tol]);
+            let p = linfa_elasticnet::MultiTaskElasticNet::<f64>::params().penalty(pen).l1_ratio(l1).tolerance(tol).max_iterations(50);
+            let ds = DatasetBase::new(xs(), ys_2());
+            probe(ctx, "ElasticNet", || p.clone(), viol.clone(), finite, |p| dbg(p), |c| dbg(c), |e| dbg(&e), |p| res!(p.fit(&ds)), |c| res!(c.fit(&ds)))
+        });
+    }
+    // ---- logistic regression (binary and multinomial share one guard): alpha, gradient_tolerance, initial_params
+    let inits: Vec<Option<Vec<f64>>> = vec![None, Some(vec![0.0, 0.5, -0.5]), Some(vec![0.0, f64::NAN, 1.0]), Some(vec![f64::INFINITY, 0.0, 1.0]), Some(vec![0.25, 0.0, f64::NEG_INFINITY])];
+    for t in points(&[nf, nf, inits.len()], &[fb, fb, 0], cap, rng) {
+        let (al, gt, init) = (fg[t[0]], fg[t[1]], inits[t[2]].clone());
+        let init_fin = init.as_ref().map_or(true, |v| v.iter().all(|x| x.is_finite()));
+        let viol = first(&[(nonneg(al), "alpha>=0"), (pos(gt), "gradient_tolerance>0"), (init_fin, "initial_params finite")]);
+        let finite = al.is_finite() && gt.is_finite() && init_fin;
+        let init_s = init.as_ref().map_or("none".to_string(), |v| v.iter().map(|x| h(*x)).collect::<Vec<_>>().join(","));
+        em.count("builder:Logistic");
+        let init1 = init.clone();
+        em.case(format!("grid b=Logistic kind=binary alpha={} gradient_tolerance={} initial_params={}", h(al), h(gt), init_s), |ctx| {
+            set_moderate(&[al, gt]);
+            let mut p = linfa_logistic::LogisticRegression::<f64>::default().alpha(al).gradient_tolerance(gt).max_iterations(20);
+            if let Some(v) = init1 {
+                p = p.initial_params(Array1::from(v));
+            }
+            let ds = DatasetBase::new(xs(), ys_b());
+            probe(ctx, "Logistic", || p.clone(), viol.clone(), finite, |p| dbg(p), |c| dbg(c), |e| dbg(&e), |p| res!(p.fit(&ds)), |c| res!(c.fit(&ds)))
+        });
+        // multinomial: the same values as a (features+1) x classes matrix, column-repeated
+        let init2 = init.clone();
+        let init_s2 = init.as_ref().map_or("none".to_string(), |v| v.iter().flat_map(|x| vec![h(*x), h(*x)]).collect::<Vec<_>>().join(","));
+        em.case(format!("grid b=Logistic kind=multi alpha={} gradient_tolerance={} initial_params={}", h(al), h(gt), init_s2), |ctx| {
+            set_moderate(&[al, gt]);
+            let mut p = linfa_logistic::MultiLogisticRegression::<f64>::default().alpha(al).gradient_tolerance(gt).max_iterations(20);
+            if let Some(v) = init2 {
+                p = p.initial_params(Array2::from_shape_fn((3, 2), |(i, _)| v[i]));
+            }
+            let ds = DatasetBase::new(xs(), ys_u());
+            probe(ctx, "Logistic", || p.clone(), viol.clone(), finite, |p| dbg(p), |c| dbg(c), |e| dbg(&e), |p| res!(p.fit(&ds)), |c| res!(c.fit(&ds)))
+        });
+    }
+    // ---- Tweedie GLM: alpha, power
+    for t in points(&[nf, nf], &[fb, fb], cap, rng) {
+        let (al, pw) = (fg[t[0]], fg[t[1]]);
+        em.count("builder:Tweedie");
+        em.case(format!("grid b=Tweedie alpha={} power={}", h(al), h(pw)), |ctx| {
+            set_moderate(&[al, pw]);
+            let p = linfa_linear::TweedieRegressor::<f64>::params().alpha(al).power(pw).max_iter(20);
+            let viol = first(&[(nonneg(al), "alpha>=0"), (pw.is_finite() && (pw <= 0.0 || pw >= 1.0), "power not in (0,1)")]);
+            let ds = DatasetBase::new(xs(), ys_f());
+            probe(ctx, "Tweedie", || p.clone(), viol, al.is_finite() && pw.is_finite(), |p| dbg(p), |c| dbg(c), |e| dbg(&e), |p| res!(p.fit(&ds)), |c| res!(c.fit(&ds)))
+        });
+    }
+    // ---- SVM: platt (maxiter, minstep, sigma), eps, C pair / nu
+    {
+        #[derive(Clone)]
+        enum W {
+            C(f64, f64),
+            Nu(f64),
+        }
+        let mut ws: Vec<W> = vec![];
+        for a in [-1.0, 0.0, EPS, 1.0, f64::NAN, f64::INFINITY] {
+            for b in [-1e-9, 0.0, 0.5, f64::NEG_INFINITY] {
+                ws.push(W::C(a, b));
+            }
+        }
+        for v in &fg {
+            ws.push(W::Nu(*v));
+        }
+        let wb = ws.iter().position(|w| matches!(w, W::C(a, b) if *a == 1.0 && *b == 0.5)).unwrap();
+        let pf: Vec<f64> = vec![-1.0, -1e-9, 0.0, 1e-10, f64::NAN, f64::INFINITY, f64::NEG_INFINITY];
+        for t in points(&[3, pf.len(), pf.len(), nf, ws.len()], &[1, 3, 3, fb, wb], cap, rng) {
+            let (mi, ms, sg, eps, w) = ([0usize, 1, 100][t[0]], pf[t[1]], pf[t[2]], fg[t[3]], ws[t[4]].clone());
+            let (c_s, nu_s, wfin, wviol): (String, String, bool, Option<&str>) = match &w {
+                W::C(a, b) => (format!("{},{}", h(*a), h(*b)), "none".into(), a.is_finite() && b.is_finite(), if pos(*a) && pos(*b) { None } else { Some("C>0") }),
+                W::Nu(v) => ("none".into(), format!("{},{}", h(*v), h(*v)), v.is_finite(), if *v > 0.0 && *v <= 1.0 { None } else { Some("0<nu<=1") }),
+            };
+            em.count("builder:Svm");
+            em.case(format!("grid b=Svm platt.maxiter={} platt.minstep={} platt.sigma={} solver_params_eps={} c={} nu={}", mi, h(ms), h(sg), h(eps), c_s, nu_s), |ctx| {
+                set_moderate(&[ms, sg, eps]);
+                let platt = Platt::<f64, ()>::params().maxiter(mi).minstep(ms).sigma(sg);
+                let mut p = linfa_svm::Svm::<f64, bool>::params().eps(eps).with_platt_params(platt);
+                p = match &w {
+                    W::C(a, b) => p.pos_neg_weights(*a, *b),
+                    W::Nu(v) => p.nu_weight(*v),
+                };
+                let viol = first(&[(mi >= 1, "platt.maxiter>=1"), (nonneg(ms), "platt.minstep>=0"), (nonneg(sg), "platt.sigma>=0"), (nonneg(eps), "eps>=0"), (wviol.is_none(), wviol.unwrap_or(""))]);
+                let ds = DatasetBase::new(xs(), ys_b());
+                // training is only run for solver tolerances that terminate quickly
+                let runnable = eps >= 1e-4;
+                probe(ctx, "Svm", || p.clone(), viol, ms.is_finite() && sg.is_finite() && eps.is_finite() && wfin, |p| dbg(p), |c| dbg(c), |e| dbg(&e),
+                    |p| if runnable || p.check_ref().is_err() { res!(p.fit(&ds)) } else { Ok("skipped".into()) },
+                    |c| if runnable { res!(c.fit(&ds)) } else { Ok("skipped".into()) })
+            });
+        }
+    }
+    // ---- decision tree: min_impurity_decrease
+    for v in &fg {
+        let x = *v;
+        em.count("builder:DecisionTree");
+        em.case(format!("grid b=DecisionTree min_impurity_decrease={}", h(x)), |ctx| {
+            set_moderate(&[x]);
+            let p = linfa_trees::DecisionTree::<f64, usize>::params().min_impurity_decrease(x);
+            let viol = first(&[(x.is_finite() && x >= EPS, "min_impurity_decrease>=eps")]);
+            let ds = DatasetBase::new(xs(), ys_u());
+            // fitted models are compared through their predictions (Debug output follows hash-map order)
+            probe(ctx, "DecisionTree", || p.clone(), viol, x.is_finite(), |p| dbg(p), |c| dbg(c), |e| dbg(&e),
+                |p| p.fit(&ds).map(|m| dbg(&m.predict(&xs()))).map_err(|e| dbg(&e)), |c| c.fit(&ds).map(|m| dbg(&m.predict(&xs()))).map_err(|e| dbg(&e)))
+        });
+    }
+    // ---- naive Bayes: var_smoothing / alpha (fit and fit_with)
+    for v in &fg {
+        let x = *v;
+        em.count("builder:NaiveBayes");
+        let viol = first(&[(nonneg(x), "smoothing>=0")]);
+        for with in [false, true] {
+            em.case(format!("grid b=GaussianNb via={} var_smoothing={}", if with { "fit_with" } else { "fit" }, h(x)), |ctx| {
+                set_moderate(&[x]);
+                let p = linfa_bayes::GaussianNb::<f64, usize>::params().var_smoothing(x);
+                let ds = DatasetBase::new(xs(), ys_u());
+                if with {
+                    probe(ctx, "GaussianNb", || p.clone(), viol.clone(), x.is_finite(), |p| dbg(p), |c| dbg(c), |e| dbg(&e), |p| p.fit_with(None, &ds).map(|m| dbg(&m.map(|m| m.predict(&xs())))).map_err(|e| dbg(&e)), |c| c.fit_with(None, &ds).map(|m| dbg(&m.map(|m| m.predict(&xs())))).map_err(|e| dbg(&e)))
+                } else {
+                    probe(ctx, "GaussianNb", || p.clone(), viol.clone(), x.is_finite(), |p| dbg(p), |c| dbg(c), |e| dbg(&e), |p| p.fit(&ds).map(|m| dbg(&m.predict(&xs()))).map_err(|e| dbg(&e)), |c| c.fit(&ds).map(|m| dbg(&m.predict(&xs()))).map_err(|e| dbg(&e)))
+                }
+            });
+            em.case(format!("grid b=MultinomialNb via={} alpha={}", if with { "fit_with" } else { "fit" }, h(x)), |ctx| {
+                set_moderate(&[x]);
+                let p = linfa_bayes::MultinomialNb::<f64, usize>::params().alpha(x);
+                let ds = DatasetBase::new(xs(), ys_u());
+                if with {
+                    probe(ctx, "MultinomialNb", || p.clone(), viol.clone(), x.is_finite(), |p| dbg(p), |c| dbg(c), |e| dbg(&e), |p| p.fit_with(None, &ds).map(|m| dbg(&m.map(|m| m.predict(&xs())))).map_err(|e| dbg(&e)), |c| c.fit_with(None, &ds).map(|m| dbg(&m.map(|m| m.predict(&xs())))).map_err(|e| dbg(&e)))
+                } else {
+                    probe(ctx, "MultinomialNb", || p.clone(), viol.clone(), x.is_finite(), |p| dbg(p), |c| dbg(c), |e| dbg(&e), |p| p.fit(&ds).map(|m| dbg(&m.predict(&xs()))).map_err(|e| dbg(&e)), |c| c.fit(&ds).map(|m| dbg(&m.predict(&xs()))).map_err(|e| dbg(&e)))
+                }
+            });
+        }
+    }
+    // ---- FTRL (fit_with only... and fit): l1_ratio, l2_ratio, alpha, beta
+    for t in points(&[nf, nf, nf, nf], &[fb, fb, fb, fb], cap, rng) {
+        let (l1, l2, al, be) = (fg[t[0]], fg[t[1]], fg[t[2]], fg[t[3]]);
+        em.count("builder:Ftrl");
+        em.case(format!("grid b=Ftrl l1_ratio={} l2_ratio={} alpha={} beta={}", h(l1), h(l2), h(al), h(be)), |ctx| {
+            set_moderate(&[l1, l2, al, be]);
+            let p = linfa_ftrl::Ftrl::<f64>::params_with_rng(rng7()).l1_ratio(l1).l2_ratio(l2).alpha(al).beta(be);
+            let viol = first(&[(unit(l1), "0<=l1_ratio<=1"), (unit(l2), "0<=l2_ratio<=1"), (nonneg(al), "alpha>=0"), (nonneg(be), "beta>=0")]);
+            let ds = DatasetBase::new(xs(), ys_b());
+            probe(ctx, "Ftrl", || p.clone(), viol, l1.is_finite() && l2.is_finite() && al.is_finite() && be.is_finite(), |p| dbg(p), |c| dbg(c), |e| dbg(&e),
+                |p| res!(p.fit_with(None, &ds)), |c| res!(c.fit_with(None, &ds)))
+        });
+    }
+    // ---- PLS (generic builder and the three macro-generated ones): tolerance, max_iter
+    for t in points(&[nf, nc], &[fb, cb], cap, rng) {
+        let (tol, mi) = (fg[t[0]], cg[t[1]]);
+        let viol = first(&[(nonneg(tol), "tolerance>=0"), (mi >= 1, "max_iter>=1")]);
+        em.count("builder:Pls");
+        macro_rules! pls {
+            ($name:expr, $ty:ident) => {
+                em.case(format!("grid b=PlsMacro kind={} tolerance={} max_iter={}", $name, h(tol), mi), |ctx| {
+                    set_moderate(&[tol]);
+                    let mk = || linfa_pls::$ty::<f64>::params(1).tolerance(tol).max_iterations(mi);
+                    let ds = DatasetBase::new(xs(), ys_2());
+                    // these builders implement neither Debug nor Clone: the guarded values are not readable
+                    // from outside, so `params_unchanged` is observed through the fitted model only
+                    probe(ctx, "PlsMacro", mk, viol.clone(), tol.is_finite(), |_| "PlsParams".to_string(), |_| "PlsParams".to_string(), |e| dbg(&e),
+                        |p| p.fit(&ds).map(|m| dbg(&m.weights())).map_err(|e| dbg(&e)), |c| c.fit(&ds).map(|m| dbg(&m.weights())).map_err(|e| dbg(&e)))
+                });
+            };
+        }
+        pls!("regression", PlsRegression);
+        pls!("canonical", PlsCanonical);
+        pls!("cca", PlsCca);
+        // (the generic `PlsParams` is `pub(crate)`: not reachable from outside the crate)
+    }
+    // ---- t-SNE: perplexity, approx_threshold
+    for t in points(&[nf, nf], &[fb, fb], cap, rng) {
+        let (pe, th_) = (fg[t[0]], fg[t[1]]);
+        em.count("builder:TSne");
+        em.case(format!("grid b=TSne perplexity={} approx_threshold={}", h(pe), h(th_)), |ctx| {
+            set_moderate(&[pe, th_]);
+            let p = linfa_tsne::TSneParams::embedding_size_with_rng(2, rng7()).perplexity(pe).approx_threshold(th_).max_iter(3);
+            let viol = first(&[(nonneg(pe), "perplexity>=0"), (nonneg(th_), "approx_threshold>=0")]);
+            // the embedding itself is only computed for parameter values bhtsne handles quickly
+            let runnable = pe.is_finite() && th_.is_finite() && pe >= 0.5 && pe <= 2.0;
+            probe(ctx, "TSne", || p.clone(), viol, pe.is_finite() && th_.is_finite(), |p| dbg(p), |c| dbg(c), |e| dbg(&e),
+                |p| if runnable || p.check_ref().is_err() { p.transform(xs()).map(|m| dbg(&m.dim())).map_err(|e| dbg(&e)) } else { Ok("skipped".into()) },
+                |c| if runnable { c.transform(xs()).map(|m| dbg(&m.dim())).map_err(|e| dbg(&e)) } else { Ok("skipped".into()) })
+        });
+    }
+    // ---- FastICA: tol
+    for v in &fg {
+        let x = *v;
+        em.count("builder:FastIca");
+        em.case(format!("grid b=FastIca tol={}", h(x)), |ctx| {
+            set_moderate(&[x]);
+            let p = linfa_ica::fast_ica::FastIca::<f64>::params().tol(x).ncomponents(2).random_state(3).max_iter(10);
+            let viol = first(&[(nonneg(x), "tol>=0")]);
+            let ds = DatasetBase::from(xs());
+            probe(ctx, "FastIca", || p.clone(), viol, x.is_finite(), |p| dbg(p), |c| dbg(c), |e| dbg(&e), |p| res!(p.fit(&ds)), |c| res!(c.fit(&ds)))
+        });
+    }
+    // ---- diffusion map: steps, embedding_size
+    for t in points(&[nc, nc], &[cb, cb], cap, rng) {
+        let (st, es) = (cg[t[0]], cg[t[1]]);
+        em.count("builder:DiffusionMap");
+        em.case(format!("grid b=DiffusionMap steps={} embedding_size={}", st, es), |ctx| {
+            set_moderate(&[]);
+            let p = linfa_reduction::DiffusionMap::<f64>::params(es).steps(st);
+            let viol = first(&[(st >= 1, "steps>=1"), (es >= 1, "embedding_size>=1")]);
+            let k = kernel();
+            probe(ctx, "DiffusionMap", || p.clone(), viol, true, |p| dbg(p), |c| dbg(c), |e| dbg(&e), |p| res!(p.transform(&k)), |c| Ok(dbg(&c.transform(&k))))
+        });
+    }
+    // ---- random projection (Gaussian and sparse): Dimension d | Epsilon e
+    {
+        let mut vs: Vec<(String, Option<usize>, Option<f64>)> = vec![];
+        for d in &cg {
+            vs.push((format!("Dimension:{}", d), Some(*d), None));
+        }
+        for e in &fg {
+            vs.push((format!("Epsilon:{}", h(*e)), None, Some(*e)));
+        }
+        for (s, d, e) in vs {
+            let viol = match (d, e) {
+                (Some(d), _) => first(&[(d >= 1, "target_dim>=1")]),
+                (_, Some(e)) => first(&[(e > 0.0 && e < 1.0, "0<eps<1")]),
+                _ => None,
+            };
+            let finite = e.map_or(true, |e| e.is_finite());
+            em.count("builder:RandomProjection");
+            macro_rules! rp {
+                ($kind:expr, $ty:ident) => {
+                    em.case(format!("grid b=RandomProjection kind={} params={}", $kind, s), |ctx| {
+                        set_moderate(&[]);
+                        let mk = || {
+                            let mut p = linfa_reduction::random_projection::$ty::<f64>::params_with_rng(rng7());
+                            if let Some(d) = d {
+                                p = p.target_dim(d);
+                            }
+                            if let Some(e) = e {
+                                p = p.eps(e);
+                            }
+                            p
+                        };
+                        let ds = DatasetBase::from(xs());
+                        // the unchecked builder implements neither Debug nor Clone; the checked one does
+                        probe(ctx, "RandomProjection", mk, viol.clone(), finite, |_| format!("{:?}/{:?}", d, e), |c| format!("{:?}/{:?}", c.target_dim(), c.eps()), |e| dbg(&e),
+                            |p| p.fit(&ds).map(|_| "model".to_string()).map_err(|e| dbg(&e)), |c| c.fit(&ds).map(|_| "model".to_string()).map_err(|e| dbg(&e)))
+                    });
+                };
+            }
+            rp!("gaussian", GaussianRandomProjection);
+            rp!("sparse", SparseRandomProjection);
+        }
+    }
+    // ---- hierarchical clustering: NumClusters n | Distance x
+    {
+        let mut vs: Vec<(String, Option<usize>, Option<f64>)> = vec![];
+        for d in &cg {
+            vs.push((format!("NumClusters:{}", d), Some(*d), None));
+        }
+        for e in &fg {
+            vs.push((format!("Distance:{}", h(*e)), None, Some(*e)));
+        }
+        for (s, d, e) in vs {
+            let viol = match (d, e) {
+                (Some(d), _) => first(&[(d >= 1, "num_clusters>=1")]),
+                (_, Some(e)) => first(&[(nonneg(e), "max_distance>=0")]),
+                _ => None,
+            };
+            em.count("builder:Hierarchical");
+            em.case(format!("grid b=Hierarchical stopping={}", s), |ctx| {
+                set_moderate(&[]);
+                let mut p = linfa_hierarchical::HierarchicalCluster::<f64>::default();
+                if let Some(d) = d {
+                    p = p.num_clusters(d);
+                }
+                if let Some(e) = e {
+                    p = p.max_distance(e);
+                }
+                probe(ctx, "Hierarchical", || p.clone(), viol.clone(), e.map_or(true, |e| e.is_finite()), |p| dbg(p), |c| dbg(c), |e| dbg(&e),
+                    |p| p.transform(kernel()).map(|d| canon(d.targets())).map_err(|e| dbg(&e)), |c| Ok(canon(c.transform(kernel()).targets())))
+            });
+        }
+    }
+    // ---- count vectoriser: n_gram_range, document_frequency, split regex
+    {
+        let f32g = fgrid32(th);
+        let n32 = f32g.len();
+        let b32 = f32g.iter().position(|x| *x == 0.5).unwrap();
+        let ng: Vec<usize> = if th { vec![0, 1, 2, 3, 7] } else { vec![0, 1, 2, 3] };
+        for t in points(&[ng.len(), ng.len(), n32, n32, 2], &[1, 2, 2, b32, 1], cap.max(400), rng) {
+            let (a, b, lo, hi, rok) = (ng[t[0]], ng[t[1]], f32g[t[2]], f32g[t[3]], t[4] == 1);
+            em.count("builder:CountVectorizer");
+            em.case(format!("grid b=CountVectorizer n_gram_range={},{} document_frequency={},{} split_regex_ok={}", a, b, h(lo), h(hi), rok as u8), |ctx| {
+                set_moderate(&[lo, hi]);
+                let mut p = linfa_preprocessing::CountVectorizer::params().n_gram_range(a, b).document_frequency(lo as f32, hi as f32);
+                if !rok {
+                    p = p.tokenizer(linfa_preprocessing::Tokenizer::Regex("(unclosed".to_string()));
+                }
+                let viol = first(&[(a >= 1 && b >= 1, "n_gram>=1"), (a <= b, "min_n<=max_n"), (unit(lo), "0<=min_freq<=1"), (unit(hi), "0<=max_freq<=1"), (lo <= hi, "min_freq<=max_freq"), (rok, "regex valid")]);
+                let docs = array!["one two three four", "one two three", "one two", "one five six"];
+                // the compiled regex is cached inside the parameters by check_ref (interior mutability): it is
+                // not a hyperparameter, so it is masked in the printed form
+                let show = |s: String| -> String {
+                    match (s.find("split_regex: "), s.find("n_gram_range: ")) {
+                        (Some(i), Some(j)) if i < j => format!("{}{}", &s[..i], &s[j..]),
+                        _ => s,
+                    }
+                };
+                probe(ctx, "CountVectorizer", || p.clone(), viol, lo.is_finite() && hi.is_finite(), |p| show(dbg(p)), |c| show(dbg(c)), |e| dbg(&e),
+                    |p| p.fit(&docs).map(|m| { let mut v = m.vocabulary().clone(); v.sort(); dbg(&v) }).map_err(|e| dbg(&e)),
+                    |c| c.fit(&docs).map(|m| { let mut v = m.vocabulary().clone(); v.sort(); dbg(&v) }).map_err(|e| dbg(&e)))
+            });
+        }
+    }
+    // ---- Platt scaling (fit_with): maxiter, minstep, sigma
+    for t in points(&[nc, nf, nf], &[cb, fb, fb], cap, rng) {
+        let (mi, ms, sg) = (cg[t[0]], fg[t[1]], fg[t[2]]);
+        em.count("builder:Platt");
+        em.case(format!("grid b=Platt maxiter={} minstep={} sigma={}", mi, h(ms), h(sg)), |ctx| {
+            set_moderate(&[ms, sg]);
+            let p = Platt::<f64, FirstColumn>::params().maxiter(mi).minstep(ms).sigma(sg);
+            let viol = first(&[(mi >= 1, "maxiter>=1"), (nonneg(ms), "minstep>=0"), (nonneg(sg), "sigma>=0")]);
+            let ds = DatasetBase::new(xs(), ys_b());
+            probe(ctx, "Platt", || p.clone(), viol, ms.is_finite() && sg.is_finite(), |p| dbg(p), |c| dbg(c), |e: PlattError| dbg(&e),
+                |p| res!(p.fit_with(FirstColumn, &ds)), |c| res!(c.fit_with(FirstColumn, &ds)))
+        });
+    }
+    em.count_n("fit_not_exercised(extreme valid values)", NOT_EXERCISED.with(|c| c.get()));
+    let _ = Pr::new(0.5);
+}
